@@ -20,6 +20,16 @@ package syncx
 //@   trusted
 //@   ensures abVal[b] == v
 //@   modifies abVal[b]
+//@ func NewAtomicBool
+//@   trusted
+//@   ensures fresh(result) && !abVal[result]
+//@   modifies abVal[result]
+//@   allocates
+//@ func ForAtomicBool
+//@   trusted
+//@   ensures fresh(result) && abVal[result] == val
+//@   modifies abVal[result]
+//@   allocates
 //@ func (b *AtomicBool) True
 //@   trusted
 //@   ensures result == abVal[b]
@@ -174,3 +184,18 @@ package syncx
 //@   trusted
 //@   flag runs_funcargs
 //@   modifies nothing
+
+// Construction: the new objects satisfy their lock invariants when they are handed out (publish rule).
+//@ func NewSingleFlight
+//@   property C07
+//@   ghost at returned#0: running[ret] = zeros(running[ret])
+//@   ensures  result != nil
+//@   allocates
+//@ func NewResourceManager
+//@   property C07
+//@   ensures  fresh(result)
+//@   allocates
+//@ func (manager *ResourceManager) Close
+//@   property C07
+//@   requires manager != nil
+//@   loop 0: invariant true
